@@ -155,6 +155,7 @@ typedef struct
 	int used ;
 } MEMFILE ;
 static MEMFILE files [MAXFILES] ;
+static long long file_do [MAXFILES], file_dl [MAXFILES] ;	/* data offset / length seen by the last successful open of the file */
 
 typedef struct
 {	MEMFILE *mf ;
@@ -593,7 +594,10 @@ static void do_open (void)
 	ev_int ("gerr", sf_error (NULL)) ;
 	{	const char *m = sf_strerror (NULL) ; ev_int ("gmsg", m ? (int) strlen (m) : -1) ; }
 	if (H->sf)
-	{	ev_info (&H->info) ; ev_err (h) ; ev_state (h) ; }
+	{	SF_VERIF_STATE vs ;
+		if (sf_verif_snapshot (H->sf, &vs) == 0) { file_do [fid] = vs.dataoffset ; file_dl [fid] = vs.datalength ; }
+		ev_info (&H->info) ; ev_err (h) ; ev_state (h) ;
+		}
 	else
 	{	/* a failed open must leave nothing behind */
 		/* pipe route first : stop the helper thread (it owns a small heap block and the other end of the pipe) */
@@ -739,7 +743,7 @@ static void do_file (void)
 {	/* file fid new | copy src | hex HEX | load path [off len] | trunc n | setbyte off val */
 	int fid = (int) tokll (1) ; MEMFILE *mf = &files [fid] ; mf->used = 1 ;
 	const char *k = toks [2] ;
-	if (strcmp (k, "save") && strcmp (k, "dump")) path_remove (fid) ;
+	if (strcmp (k, "save") && strcmp (k, "dump") && strcmp (k, "datadump")) path_remove (fid) ;
 	if (!strcmp (k, "new")) mf->len = 0 ;
 	else if (!strcmp (k, "copy"))
 	{	MEMFILE *src = &files [tokll (3)] ; mf_reserve (mf, src->len + 1) ; if (src->len) memcpy (mf->data, src->data, src->len) ; mf->len = src->len ; }
@@ -762,6 +766,23 @@ static void do_file (void)
 		mf_reserve (mf, o + n + 1) ;
 		for (long long i = 0 ; i < n ; i++) { unsigned v ; sscanf (hx + 2 * i, "%2x", &v) ; mf->data [o + i] = (unsigned char) v ; }
 		if (o + n > mf->len) mf->len = o + n ;
+		}
+	else if (!strcmp (k, "datapatch"))
+	{	/* overwrite the data section with generated bytes : kinds rand, ext (runs of 00 / FF / 88 / 77), hdr (random, extreme block headers) */
+		long long seed = tokll (3) ; const char *kind = ntok > 4 ? toks [4] : "rand" ; long long blk = ntok > 5 ? tokll (5) : 0 ;
+		long long o = file_do [fid], n = file_dl [fid] ; if (o + n > mf->len) n = mf->len - o ; if (n < 0) n = 0 ;
+		rng_s = 0x9E3779B97F4A7C15ULL ^ (uint64_t) (seed * 2654435761LL + 777) ; rng () ; rng () ;
+		for (long long i = 0 ; i < n ; i++)
+		{	unsigned char v = (unsigned char) (rng () >> 24) ;
+			if (!strcmp (kind, "ext")) { static const unsigned char pat [4] = { 0x00, 0xFF, 0x88, 0x77 } ; v = pat [((i / 37) + seed) % 4] ; }
+			if (!strcmp (kind, "hdr") && blk > 0 && (i % blk) < 16 && (rng () & 3) == 0) v = (rng () & 1) ? 0xFF : 0x7F ;
+			mf->data [o + i] = v ;
+			}
+		}
+	else if (!strcmp (k, "datadump"))
+	{	long long o = file_do [fid], n = file_dl [fid] ; if (o + n > mf->len) n = mf->len - o ; if (n < 0) n = 0 ;
+		ev_begin ("filedump", -1) ; ev_int ("fid", fid) ; ev_int ("off", o) ; ev_bytes ("bytes", mf->data + o, n) ; ev_end () ;
+		return ;
 		}
 	else if (!strcmp (k, "dump"))
 	{	long long o = tokll (3), n = tokll (4) ; if (n < 0 || o + n > mf->len) n = mf->len - o ; if (n < 0) n = 0 ;
